@@ -160,7 +160,7 @@ type recMessaging struct {
 	self string
 }
 
-func (m *recMessaging) Start(context.Context, service.Runner) error { return nil }
+func (m *recMessaging) Start(context.Context, service.Runner) error       { return nil }
 func (m *recMessaging) AddValidator(p2p.ValidatorFunc, ...p2pmsg.Message) {}
 func (m *recMessaging) AddMessageHandler(...p2p.MessageHandler)           {}
 func (m *recMessaging) SendMessage(_ context.Context, msg p2pmsg.Message, _ ...retry.Option) error {
@@ -592,6 +592,15 @@ func oracleTick(run *vh.Run, c histCase, bk *books, opIdx, pending int, calls []
 		// rows no keyper records (foreign set, unknown eon, negative numbers): the loop's
 		// defensive checks decide; the property only demands that nothing of them is published
 		run.Dist["tick:with-foreign-rows"]++
+		// ... and that a key of the keyper's own sets that is dropped with them is not
+		// dropped silently
+		if class == "none" {
+			for _, m := range []string{"broadcast", "callback"} {
+				if ((m == "broadcast" && c.Bcast) || (m == "callback" && c.Cb)) && len(perMech[m]) < len(due) {
+					violate("C20:key-dropped-silently", fmt.Sprintf("op %d: %d key generations of the keyper's sets were pending next to rows of other kinds, %s was handed %d and the tick returned no error", opIdx, len(due), m, len(perMech[m])), calls, due)
+				}
+			}
+		}
 		return
 	}
 	if refused {
@@ -860,6 +869,42 @@ func forced() []histCase {
 				c.Ops = append(c.Ops, opJ{Kind: "tick", Perm: p}, opJ{Kind: "tick"})
 				out = append(out, c)
 			}
+		}
+	}
+	// a key of an eon of a set the keyper is not in, of an unknown eon, of an eon with a
+	// negative activation block, next to a key of the keyper's own set, in both orders
+	for mode := 0; mode < 3; mode++ {
+		for kind := 0; kind < 3; kind++ {
+			for rev := 0; rev < 2; rev++ {
+				c := histCase{Kind: "hist", Class: "foreign", Self: 0, Instance: 42, Bcast: mode != 1, Cb: mode != 0}
+				c.Ops = append(c.Ops,
+					opJ{Kind: "cfg", Kci: 0, Keypers: []string{poolAddrs[1], poolAddrs[0]}, CfgAct: 1000},
+					opJ{Kind: "cfg", Kci: 2, Keypers: []string{poolAddrs[4], nearMiss}, CfgAct: 3000},
+					opJ{Kind: "eon", Eon: 1, Act: 100, Kci: 0},
+					opJ{Kind: "eon", Eon: 9, Act: 900, Kci: 2},
+					opJ{Kind: "eon", Eon: 8, Act: -5, Kci: 0},
+					opJ{Kind: "gen", Key: []byte{0x10}, Eon: 1},
+					opJ{Kind: "gen", Key: []byte{0x66}, Eon: []int64{9, 77, 8}[kind]},
+					opJ{Kind: "tick", Perm: []int{rev, 1 - rev}}, opJ{Kind: "tick"})
+				out = append(out, c)
+			}
+		}
+	}
+	// three keys in one tick, the p-th call refused
+	for mode := 0; mode < 3; mode++ {
+		for p := 0; p < 4; p++ {
+			c := histCase{Kind: "hist", Class: "refusing", Self: 2, Instance: 5, Bcast: mode != 1, Cb: mode != 0}
+			c.Ops = append(c.Ops, opJ{Kind: "cfg", Kci: 1, Keypers: []string{poolAddrs[2], poolAddrs[5]}, CfgAct: 10})
+			for j := 1; j <= 3; j++ {
+				c.Ops = append(c.Ops, opJ{Kind: "eon", Eon: int64(j), Act: int64(10 * j), Kci: 1})
+			}
+			for j := 1; j <= 3; j++ {
+				c.Ops = append(c.Ops, opJ{Kind: "gen", Key: []byte{byte(j)}, Eon: int64(j)})
+			}
+			ans := []bool{true, true, true, true}
+			ans[p] = false
+			c.Ops = append(c.Ops, opJ{Kind: "tick", Perm: []int{2, 0, 1}, Answers: ans}, opJ{Kind: "tick"})
+			out = append(out, c)
 		}
 	}
 	// the same eon finishing again after its key was polled: handed once per generation
